@@ -21,7 +21,7 @@ import (
 // revision numbers and ValidProofValues/MissedProofValues but an honest signature, a locked
 // contract and stubbed chain/settings/contract manager (stubs of verif_c12_v2_test.go).
 // Observable: did the handler get as far as asking the contract manager to commit the revision
-// (accepted), answer with an error, or panic.  Model: coq/Revision/Model.v `run (HSectorRoots ..)`.
+// (accepted), answer with an error, or panic.  Model: coq/Revision/Model.v `run (HRevision ..)`.
 
 type c07ReviseProbe struct {
 	c12Contracts
@@ -40,37 +40,61 @@ type c07V2Case struct {
 	desc   string
 }
 
-func c07V2Honest(rng *rand.Rand, cost types.Currency) c07V2Case {
+func c07V2Honest(rng *rand.Rand, cost, coll types.Currency) c07V2Case {
 	R := c12Add(cost, c12Amount(rng))
-	H := c12Amount(rng)
-	Hm := c12Portion(rng, H)
+	H := c12Add(coll, c12Amount(rng))
+	Hm := c12Add(coll, c12Portion(rng, H.Sub(coll)))
 	V := H.Sub(Hm)
 	ex := c12FC{ws: 5000, we: 5144, uh: 1, num: uint64(1 + rng.Intn(1000)),
 		valid:  []c12Out{{1, R}, {5, H}},
 		missed: []c12Out{{1, R}, {5, Hm}, {0, V}}}
 	x := c12Add(cost, c12Portion(rng, R.Sub(cost)))
+	b := c12Portion(rng, coll) // the host burns at most the collateral
 	return c07V2Case{ex: ex, num: ex.num + 1 + uint64(rng.Intn(3)),
 		vs: []types.Currency{R.Sub(x), c12Add(H, x)},
-		ms: []types.Currency{R.Sub(x), Hm, c12Add(V, x)}}
+		ms: []types.Currency{R.Sub(x), Hm.Sub(b), c12Add(c12Add(V, x), b)}}
 }
 
 func TestVerifC07V2(t *testing.T) {
 	em := newVerifEmitter(t, "From HostdBase Require Import Base.\nFrom HostdRevision Require Import Model.\nLocal Open Scope N_scope.", "case", "check")
 	defer em.Close()
 
-	settings := rhp2.HostSettings{BaseRPCPrice: c12C(1000), DownloadBandwidthPrice: c12C(3)}
-	costs := settings.RPCSectorRootsCost(0, 0)
-	cost, _ := costs.Total()
+	settings := rhp2.HostSettings{BaseRPCPrice: c12C(1000), DownloadBandwidthPrice: c12C(3), UploadBandwidthPrice: c12C(2),
+		SectorAccessPrice: c12C(70), StoragePrice: c12C(5), Collateral: c12C(7)}
+	const chainHeight, windowEnd = 100, 5144
+	sector := make([]byte, rhp2.SectorSize)
+	readSections := []rhp2.RPCReadRequestSection{{MerkleRoot: types.Hash256{1}, Offset: 0, Length: 64}}
+	writeActions := []rhp2.RPCWriteAction{{Type: rhp2.RPCWriteActionAppend, Data: sector}}
+	rpcCost := func(kind string) (types.Currency, types.Currency) {
+		var costs rhp2.RPCCost
+		switch kind {
+		case "roots":
+			costs = settings.RPCSectorRootsCost(0, 0)
+		case "read":
+			costs, _ = settings.RPCReadCost(readSections, false)
+		case "write":
+			costs, _ = settings.RPCWriteCost(writeActions, 0, windowEnd-chainHeight, false)
+		}
+		return costs.Total()
+	}
 
 	perts := []string{"none", "none", "exact-cost", "cost-1", "num-equal", "num-lower", "num-max", "locked", "valid-count", "missed-count",
-		"grid-valid", "grid-missed", "max-valid", "renter-up", "host-missed-down", "missed-sum+1", "valid-sum+1", "renter-unequal", "ex-shape", "no-outputs"}
+		"grid-valid", "grid-missed", "max-valid", "renter-up", "host-missed-down", "missed-sum+1", "valid-sum+1", "renter-unequal", "ex-shape", "no-outputs",
+		"burn=collateral", "burn=collateral+1"}
 	n := verifN(600)
 	for id := 0; id < 3+n; id++ {
 		if em.Skip(id) {
 			continue
 		}
 		rng := verifCaseRand(id)
-		c := c07V2Honest(rng, cost)
+		kind := []string{"roots", "roots", "read", "read", "write"}[rng.Intn(5)]
+		if id < 3 {
+			kind = "roots"
+		}
+		// collateral rate below, at and above the storage price
+		settings.Collateral = c12C([]uint64{0, 2, 5, 7}[rng.Intn(4)])
+		cost, coll := rpcCost(kind)
+		c := c07V2Honest(rng, cost, coll)
 		p := "none"
 		switch id {
 		case 0:
@@ -91,6 +115,15 @@ func TestVerifC07V2(t *testing.T) {
 			}
 			c.vs = []types.Currency{R.Sub(x), c12Add(c.ex.valid[1].val, x)}
 			c.ms = []types.Currency{R.Sub(x), Hm, c12Add(c.ex.missed[2].val, x)}
+		case "burn=collateral", "burn=collateral+1":
+			b := coll
+			if p == "burn=collateral+1" {
+				b = c12Inc(coll)
+			}
+			if c.ex.missed[1].val.Cmp(b) >= 0 {
+				x, _ := R.SubWithUnderflow(c.vs[0])
+				c.ms = []types.Currency{c.vs[0], c.ex.missed[1].val.Sub(b), c12Add(c12Add(c.ex.missed[2].val, x), b)}
+			}
 		case "num-equal":
 			c.num = c.ex.num
 		case "num-lower":
@@ -146,7 +179,8 @@ func TestVerifC07V2(t *testing.T) {
 		case "no-outputs":
 			c.ex.valid, c.ex.missed, c.vs, c.ms = nil, nil, nil, nil
 		}
-		c.desc = "sector-roots " + p
+		c.desc = kind + " " + p
+		em.Count("rpc:" + kind)
 		em.Count("perturbation:" + p)
 		em.BeginCase(id, c.desc)
 
@@ -157,30 +191,48 @@ func TestVerifC07V2(t *testing.T) {
 		existing.FileContract = ids.build(c.ex)
 
 		probe := &c07ReviseProbe{}
-		sh := &SessionHandler{privateKey: c12HostKey, chain: &c12Chain{height: 100, require: math.MaxUint64}, syncer: c12Syncer{},
+		sh := &SessionHandler{privateKey: c12HostKey, chain: &c12Chain{height: chainHeight, require: math.MaxUint64}, syncer: c12Syncer{},
 			wallet: &c12Wallet{}, contracts: probe, settings: c12SettingsStub{settings}, log: zap.NewNop(), tg: threadgroup.New()}
 		sess := &session{contract: contracts.SignedRevision{Revision: existing}}
 		pmsg := c12Session(t, sh, sess, func(rt *rhp2.Transport) {
-			req := &rhp2.RPCSectorRootsRequest{RevisionNumber: c.num, ValidProofValues: c.vs, MissedProofValues: c.ms}
+			var sig types.Signature
 			func() {
 				defer func() { recover() }() // the renter's own copy of Revise may panic on the unpatched code
 				if rev, err := rhp.Revise(existing, c.num, c.vs, c.ms); err == nil {
-					req.Signature = c12RenterKey.SignHash(rhp.HashRevision(rev))
+					sig = c12RenterKey.SignHash(rhp.HashRevision(rev))
 				}
 			}()
-			if rt.WriteRequest(rhp2.RPCSectorRootsID, req) != nil {
-				return
+			switch kind {
+			case "roots":
+				req := &rhp2.RPCSectorRootsRequest{RevisionNumber: c.num, ValidProofValues: c.vs, MissedProofValues: c.ms, Signature: sig}
+				if rt.WriteRequest(rhp2.RPCSectorRootsID, req) != nil {
+					return
+				}
+				var resp rhp2.RPCSectorRootsResponse
+				rt.ReadResponse(&resp, 4096)
+			case "read":
+				req := &rhp2.RPCReadRequest{Sections: readSections, RevisionNumber: c.num, ValidProofValues: c.vs, MissedProofValues: c.ms, Signature: sig}
+				if rt.WriteRequest(rhp2.RPCReadID, req) != nil {
+					return
+				}
+				var resp rhp2.RPCReadResponse
+				rt.ReadResponse(&resp, 4096)
+			case "write":
+				req := &rhp2.RPCWriteRequest{Actions: writeActions, RevisionNumber: c.num, ValidProofValues: c.vs, MissedProofValues: c.ms}
+				if rt.WriteRequest(rhp2.RPCWriteID, req) != nil {
+					return
+				}
+				var resp rhp2.RPCWriteMerkleProof
+				rt.ReadResponse(&resp, 4096)
 			}
-			var resp rhp2.RPCSectorRootsResponse
-			rt.ReadResponse(&resp, 4096)
 		})
-		inp := fmt.Sprintf("(HSectorRoots %s %d %s %s %s)", ids.fcTerm(existing.FileContract, 1), c.num, c12CursTerm(c.vs), c12CursTerm(c.ms), cost.ExactString())
+		inp := fmt.Sprintf("(HRevision %s %d %s %s %s %s)", ids.fcTerm(existing.FileContract, 1), c.num, c12CursTerm(c.vs), c12CursTerm(c.ms), cost.ExactString(), coll.ExactString())
 		var out string
 		switch {
 		case pmsg != "":
 			out = "Panic"
 			em.Count("result:panic")
-			em.Monitor("revision-rpc-handler-panics", "rpcSectorRoots: "+pmsg)
+			em.Monitor("revision-rpc-handler-panics", "rhp2 "+kind+": "+pmsg)
 		case probe.reviseCalled == 0:
 			out = "(Err EInvalid)"
 			em.Count("result:err")
@@ -197,16 +249,16 @@ func TestVerifC07V2(t *testing.T) {
 			burn := c12SubSat(existing.MissedProofOutputs[1].Value, rev.MissedProofOutputs[1].Value)
 			out = fmt.Sprintf("(Ok (OCur2 %s %s))", toHost.ExactString(), burn.ExactString())
 			if rev.RevisionNumber <= existing.RevisionNumber {
-				em.Monitor("accepted-revision-number-not-increased", "rpcSectorRoots")
+				em.Monitor("accepted-revision-number-not-increased", "rhp2 "+kind)
 			}
 			if rev.ValidProofOutputs[0].Value.Cmp(existing.ValidProofOutputs[0].Value) > 0 || rev.MissedProofOutputs[0].Value.Cmp(existing.MissedProofOutputs[0].Value) > 0 {
-				em.Monitor("accepted-renter-payout-increased", "rpcSectorRoots")
+				em.Monitor("accepted-renter-payout-increased", "rhp2 "+kind)
 			}
 			if toHost.Cmp(cost) < 0 {
-				em.Monitor("accepted-host-valid-payout-below-price", "rpcSectorRoots")
+				em.Monitor("accepted-host-valid-payout-below-price", "rhp2 "+kind)
 			}
-			if rev.MissedProofOutputs[1].Value.Cmp(existing.MissedProofOutputs[1].Value) < 0 {
-				em.Monitor("accepted-host-missed-payout-burn-above-collateral", "rpcSectorRoots burns collateral")
+			if burn.Cmp(coll) > 0 {
+				em.Monitor("accepted-host-missed-payout-burn-above-collateral", fmt.Sprintf("%s: burn %v collateral %v", kind, burn.ExactString(), coll.ExactString()))
 			}
 			sv, sm, so := types.ZeroCurrency, types.ZeroCurrency, types.ZeroCurrency
 			for _, o := range rev.ValidProofOutputs {
@@ -219,7 +271,7 @@ func TestVerifC07V2(t *testing.T) {
 				so = c12Add(so, o.Value)
 			}
 			if sv != so || sm != so {
-				em.Monitor("accepted-valid-sum-changed", "rpcSectorRoots")
+				em.Monitor("accepted-valid-sum-changed", "rhp2 "+kind)
 			}
 		}
 		em.FunCase(id, inp, out, out != "(Err EInvalid)" && out != "Panic")
